@@ -110,6 +110,9 @@ OneTaskPerBlock == LET T == Tasks IN
 LabelIsData == LET T == Tasks IN \A i \in 1..Len(T) : \A d \in 1..Len(ex) : T[i][d].label = T[i][d].sel
 BlockHoldsItsSlices == \A a \in Addr : region[a][2] # 0 => region[a] = <<Split(ex, a[1]), a[2]>>
 Complete == Finished => \A a \in Addr : region[a][2] # 0
-\* independence / schedule-independence: no cell is ever written twice, by whichever task
+\* schedule-independence at the level of the design (C16): whatever the interleaving, the finished result is one and the
+\* same function of the input
+FinalIsAFunctionOfTheInput == Finished => region = [a \in Addr |-> <<Split(ex, a[1]), a[2]>>]
+\* independence: no cell is ever written twice, by whichever task
 WriteOnce == [][\A a \in Addr : region[a][2] # 0 => region'[a] = region[a]]_vars
 =============================================================================
